@@ -88,3 +88,26 @@ func TestMsgClass(t *testing.T) {
 		}
 	}
 }
+
+func TestOffsets(t *testing.T) {
+	if off, ok := OffsetOf([]byte("ab\ncdé f"), 2, 5); !ok || off != 8 {
+		t.Errorf("OffsetOf = %d, %v; want 8, true", off, ok)
+	}
+	if _, ok := OffsetOf([]byte("ab\nc"), 2, 3); ok {
+		t.Error("OffsetOf beyond the end of the line must fail")
+	}
+	if _, ok := OffsetOf([]byte("a\xa9b"), 1, 3); ok {
+		t.Error("OffsetOf across invalid UTF-8 must fail")
+	}
+	got := OffsetsOfLenient([]byte("a /*\xa9*/ + 2"), 1, 9)
+	// convention 1 counts \xa9 as a character (column 9 = '/'), convention 2 does not (column 9 = ' ')
+	if len(got) != 2 || got[0] != 8 || got[1] != 9 {
+		t.Errorf("OffsetsOfLenient = %v, want [8 9]", got)
+	}
+	if Relation([]byte("{{ a == 3 }}"), Pos{1, 6, 3, 8}) != "inside" {
+		t.Error("operator inside the node range must be classified as inside")
+	}
+	if Relation([]byte("{{ a == 3 }}"), Pos{1, 2, 3, 8}) != "before" || Relation([]byte("{{ a == 3 }}"), Pos{1, 11, 3, 8}) != "after" {
+		t.Error("before/after misclassified")
+	}
+}
